@@ -106,7 +106,13 @@ Frame(m) ==
 
 \* ---------------------------------------------------------- chunked body
 \* RFC 9112 7.1: chunked-body = *chunk last-chunk trailer-section CRLF
-GoodChunk == {"ok", "ext", "smugdata", "bwsext"}     \* grammatical (bwsext: BWS before ';')
+\* grammatical chunks. bwsext: BWS before ';'; crlfdata / crdata: the chunk DATA ends in CRLF / CR;
+\* lz16: the size 3 written with 16 hex digits (leading zeros)
+GoodChunk == {"ok", "ext", "smugdata", "bwsext", "crlfdata", "crdata", "lz16"}
+\* chunk-size numerals at and beyond the range of a 64-bit int (15 x 'f', 7fff.., 8000.., ffff..fe,
+\* ffff..ff with 16 digits, 1 followed by 16 zeros): 1*HEXDIG, so grammatical, but the declared
+\* chunk data is never complete on any wire we send -- the message cannot be dispatched
+HugeChunk == {"h15f", "h16_7", "h16_8", "h16_fe", "h16_ff", "h17"}
 \* "barelf": chunk-size line ended by a bare LF -- some recipients accept it; malformed => ambiguous
 \* bad: "badsize" (non-hex), "nocrlf" (no CRLF after chunk data), "badterm" (two other bytes
 \*      where the CRLF after chunk data belongs), "lfext" (LF inside an
@@ -119,6 +125,7 @@ CP(b, j, data, phase, amb) ==
       IF e = "chunk" THEN
         IF f \in GoodChunk THEN CP(b, j + 1, Append(data, j), "chunks", amb)
         ELSE IF f = "barelf" THEN CP(b, j + 1, Append(data, j), "chunks", TRUE)
+        ELSE IF f \in HugeChunk THEN [st |-> "incomplete"]
         ELSE [st |-> "bad"]
       ELSE IF e = "last" THEN CP(b, j + 1, data, "trailers", amb)
       ELSE [st |-> "bad"]
@@ -148,7 +155,7 @@ Clean(m, fr, chunkOK) ==
   /\ ~fr.amb
   /\ fr.kind = "chunked" =>
        /\ chunkOK
-       /\ \A j \in 1..Len(m.body) : m.body[j][2] \in {"ok", "ext", "smugdata"}
+       /\ \A j \in 1..Len(m.body) : m.body[j][2] \in {"ok", "ext", "smugdata", "crlfdata", "crdata"}
 
 RECURSIVE NextUnit(_, _, _)
 NextUnit(p, i, j) ==
